@@ -171,7 +171,7 @@ class _Sys:
             try:
                 with open(self.cpath, "rb") as f:
                     entries = pickle.load(f)
-                cache = core.h64(repr([sorted((k, repr(v)) for k, v in vars(e).items() if k != "config") for e in entries]))
+                cache = core.h64(repr([sorted((k, repr(v)) for k, v in vars(e).items() if k not in ("config", "ctime", "mtime")) for e in entries]))
             except Exception as e:  # noqa
                 cache = "unreadable:%s" % type(e).__name__
             age = min(CLOCK.now - int(os.stat(self.cpath).st_mtime), self.L)
